@@ -123,7 +123,7 @@ def apply_unified_diff(root: str, diff_text: str):
         ln = lines[i]
         if ln.startswith('+++ '):
             path = ln[4:].strip()
-            cur = path[2:] if path.startswith('b/') else path
+            cur = path[2:] if path.startswith(('b/', 'a/')) else path
             if cur not in overlay:
                 with open(os.path.join(root, cur), encoding='utf-8') as f:
                     overlay[cur] = f.read().split('\n')
@@ -226,4 +226,35 @@ def run_benign(props=None, ids=None, root=None, jobs=16, verbose=True):
         print(f"benign refactorings: {out['silent']}/{out['runs']} (refactoring x check) silent; {len(bad)} alarm(s)")
         for a in out['alarms']:
             print('  ALARM', a['id'], a['property'], a['exit'], a['what'])
+    return out
+
+
+def run_regressions(root=None, verbose=True):
+    """Every repaired defect returns when its fix is reverted (regressions/<fix>.reverse.diff): the check of each
+    property recorded for that commit in known_findings.json must report it again."""
+    import json
+    from .__main__ import run_check
+    root = root or REPO
+    here = os.path.dirname(os.path.dirname(os.path.abspath(__file__)))
+    fixed = [k for k in json.load(open(os.path.join(here, 'known_findings.json'))).get('findings', []) if k.get('status') == 'fixed']
+    out = {'total': 0, 'reported': 0, 'missed': [], 'not_applicable': []}
+    rd = os.path.join(here, 'regressions')
+    for fn in sorted(os.listdir(rd)):
+        if not fn.endswith('.reverse.diff'):
+            continue
+        commit = fn.split('-', 1)[1].split('.')[0]
+        props = sorted({k['property'] for k in fixed if k.get('commit', '').startswith(commit[:7])})
+        ov = apply_unified_diff(root, open(os.path.join(rd, fn)).read())
+        if ov is None or not props:
+            out['not_applicable'].append(fn)
+            continue
+        for p in props:
+            out['total'] += 1
+            code, R = run_check(p, False, root=root, overlay=ov, quiet=True, write=False)
+            if code == 1:
+                out['reported'] += 1
+            else:
+                out['missed'].append({'fix': fn, 'property': p, 'exit': code, 'error': getattr(R, 'error', '')})
+            if verbose:
+                print(fn, p, 'exit', code, sorted({o.rule for o in R.obs if o.status == 'VIOLATION'}))
     return out
